@@ -385,6 +385,7 @@ def arith(ctx, report, rule, facts, config):
         k, mn, mx, None if k is None else k * mx, None if k is None else (k + 1) * mx), site=k_site, config=config)
     # every system's time enters as `new_time as u8` of that enum
     ins = facts.one(A.SB + "::insert")
-    bt = prog.bt(ins)
-    rts = [bb for bb, t in ins.normal_calls() if Callee(t["func"]).name == "running_time" and Callee(t["func"]).trait == A.T_SYSTEM]
-    report.ob(rule, "running-time-source", len(rts) == 1, "insert reads the hint from System::running_time once", site=ins.loc(), config=config)
+    from . import semq as Q
+    ev, ends = Q.sem(ctx, facts, ins, opaque=P.OPAQUE_INS)
+    cnt = [len(Q.calls_in(e.path.events, lambda c: c.name == "running_time" and c.trait == A.T_SYSTEM, deep=True)) for e in Q.returns(ends)]
+    report.ob(rule, "running-time-source", bool(cnt) and all(c == 1 for c in cnt), "insert reads the hint from System::running_time once on every way (%s)" % cnt, site=ins.loc(), config=config)
